@@ -426,6 +426,16 @@ func streamManageDeployment(r *rand.Rand, i int, tier string) *Case {
 		eds.Annotations[edsv1.ExtendedDaemonSetRolloutFrozenAnnotationKey] = v
 	}
 	eds.Spec.Strategy = genRollingStrategy(r, n)
+	if r.Intn(3) == 0 {
+		// the replica set carries the copy of the ExtendedDaemonSet's annotations made when it was
+		// created (newReplicaSetFromInstance): the switches as they were THEN, which the user may have
+		// removed or flipped since — only the ExtendedDaemonSet's current annotations count
+		for _, k := range []string{edsv1.ExtendedDaemonSetRollingUpdatePausedAnnotationKey, edsv1.ExtendedDaemonSetRolloutFrozenAnnotationKey} {
+			if v, ok := genAnnotValue(r); ok {
+				cur.Annotations[k] = v
+			}
+		}
+	}
 
 	var setting *edsv1.ExtendedDaemonsetSetting
 	if r.Intn(3) == 0 {
